@@ -1,6 +1,7 @@
 package rpcx
 
 import (
+	"errors"
 	"bytes"
 	"encoding/binary"
 	"fmt"
@@ -190,13 +191,15 @@ func hexHead(b []byte) string {
 
 func TestC38(t *testing.T) {
 	rec := ev.New(t, "C38")
-	rec.Rule("rapid-generated sequences of 1..3 messages of the 5 framed types (Stream, Connection, TunnelStatus, TunnelRoute, Link; random fields incl. nil sub-messages, out-of-range enums, strings around varint/size-class boundaries up to 16 KiB) written with rpc.Send into one stream followed by random trailing bytes, read back through a reader with generated short-read chunking by Receive or BoundedReceive(bound in {size-1,size,size+1,0,size/2,2*size,MaxUint32}); or the stream truncated at a generated offset; or a frame with a declared length larger than what follows (declared <= 1 MiB). Oracle: decoded message proto.Equal to the sent one, also after the shared buffer pool was overwritten and a further frame was sent/received; exactly prefix+size bytes consumed (rest intact, next frames decode); bound < size => error and the destination is never decoded into; truncated => error, no panic. Non-trivial: something follows the frame (trailing bytes or another frame), or the bound is within 1 of the frame size, or the stream is truncated. Distinct = distinct (stream bytes, mode, bound/cut, chunking).")
+	rec.Rule("rapid-generated sequences of 1..3 messages of the 5 framed types (Stream, Connection, TunnelStatus, TunnelRoute, Link; random fields incl. nil sub-messages, out-of-range enums, strings around varint/size-class boundaries up to 16 KiB) written with rpc.Send into one stream followed by random trailing bytes, read back through a reader with generated short-read chunking by Receive or BoundedReceive(bound in {size-1,size,size+1,0,size/2,2*size,MaxUint32}); or the stream truncated at a generated offset; or a frame with a declared length larger than what follows (declared <= 1 MiB). or a Send into a stream that accepts only k bytes of the frame and then fails (it must report the failure) followed by 1..3 Sends of other messages into healthy streams, each of which must carry exactly its own frame. Oracle: decoded message proto.Equal to the sent one, also after the shared buffer pool was overwritten and a further frame was sent/received; exactly prefix+size bytes consumed (rest intact, next frames decode); bound < size => error and the destination is never decoded into; truncated => error, no panic. Non-trivial: something follows the frame (trailing bytes or another frame), or the bound is within 1 of the frame size, or the stream is truncated. Distinct = distinct (stream bytes, mode, bound/cut, chunking).")
 	rec.Assume("for the unbounded Receive, declared lengths are capped at 1 MiB (an arbitrary 4-byte prefix only exercises the allocator)",
 		"whether a rejected oversized frame's body is left unread is recorded (class reject:body-left-unread) but not asserted: the statement only requires rejection without decoding")
 
 	ev.RapidCheck(t, 5000, 200000, func(rt *rapid.T) {
-		scenario := rapid.IntRange(0, 9).Draw(rt, "scenario")
+		scenario := rapid.IntRange(0, 10).Draw(rt, "scenario")
 		switch {
+		case scenario == 10:
+			c38SendAfterFailedSend(rt, rec)
 		case scenario <= 5:
 			c38RoundTrip(rt, rec)
 		case scenario <= 7:
@@ -492,4 +495,64 @@ func FuzzC38(f *testing.F) {
 			}
 		}
 	})
+}
+
+// partialWriter accepts `accept` bytes in all and then fails: a stream that is reset, closed or
+// runs into its write deadline in the middle of a frame.
+type partialWriter struct {
+	accept int
+	got    []byte
+}
+
+func (p *partialWriter) Write(b []byte) (int, error) {
+	room := p.accept - len(p.got)
+	if room >= len(b) {
+		p.got = append(p.got, b...)
+		return len(b), nil
+	}
+	if room < 0 {
+		room = 0
+	}
+	p.got = append(p.got, b[:room]...)
+	return room, errors.New("verif: stream reset by peer")
+}
+
+// c38SendAfterFailedSend: a Send whose stream takes only part of the frame must report an error,
+// and whatever it leaves behind (pooled buffers) must not leak into what later Sends put on other
+// streams: each of those carries exactly one frame of its own message.
+func c38SendAfterFailedSend(rt *rapid.T, rec *ev.Recorder) {
+	first := genFramed().Draw(rt, "failing")
+	ref := frameOf(rt, rec, first)
+	cut := rapid.IntRange(0, max(len(ref)-1, 0)).Draw(rt, "acceptedBytes")
+	if rapid.IntRange(0, 3).Draw(rt, "edge") == 0 {
+		cut = rapid.SampledFrom([]int{0, 1, 3, 4, 5, len(ref) - 1}).Draw(rt, "edgeCut")
+		cut = min(max(cut, 0), max(len(ref)-1, 0))
+	}
+	pw := &partialWriter{accept: cut}
+	err, pn := guarded(func() error { return rpc.Send(pw, first) })
+	doc := map[string]any{"failing_type": typeName(first), "frame_bytes": len(ref), "accepted_bytes": cut}
+	rec.Case(true, fmt.Sprintf("failed-send|%x|%d", ref[:min(len(ref), 24)], cut), func() any { return doc }, "send-after-failed-send")
+	if pn != nil {
+		rec.Fail(rt, "send-panic", doc, "Send panicked on a stream that accepts %d of %d bytes: %v", cut, len(ref), pn)
+	}
+	if err == nil && len(ref) > cut {
+		rec.Fail(rt, "short-send-reported-as-success", doc, "Send returned nil although the stream accepted %d of %d bytes", cut, len(ref))
+	}
+	n := rapid.IntRange(1, 3).Draw(rt, "later")
+	for i := 0; i < n; i++ {
+		m := genFramed().Draw(rt, "later-message")
+		var healthy bytes.Buffer
+		if err := rpc.Send(&healthy, m); err != nil {
+			rec.Fail(rt, "send-failed", doc, "Send(%s) into a bytes.Buffer after a failed Send: %v", typeName(m), err)
+		}
+		got := healthy.Bytes()
+		back := freshLike(m)
+		rd := bytes.NewReader(got)
+		rerr, rpn := guarded(func() error { return rpc.Receive(rd, back) })
+		if rpn != nil || rerr != nil || !proto.Equal(back, m) || rd.Len() != 0 || len(got) != rpc.LengthSize+m.SizeVT() {
+			doc["later_type"], doc["later_stream_hex"] = typeName(m), hexHead(got)
+			rec.Fail(rt, "frame-polluted-by-earlier-failed-send", doc, "after a Send that failed part-way (%d of %d bytes accepted), Send #%d of a %s put %d bytes on a healthy stream (its frame is %d bytes); decoded equal=%v err=%v panic=%v unread=%d",
+				cut, len(ref), i+1, typeName(m), len(got), rpc.LengthSize+m.SizeVT(), proto.Equal(back, m), rerr, rpn, rd.Len())
+		}
+	}
 }
